@@ -131,4 +131,74 @@ def docType (I : Impl) (j : J) : Option String :=
       | _ => none
   | _ => none
 
+
+/-! ### canonical values (the hypothesis of C01's exactness clause), as an executable predicate -/
+
+def sortedB : List (String × J) → Bool
+  | [] => true
+  | [_] => true
+  | a :: b :: r => decide (a.1 < b.1) && sortedB (b :: r)
+
+def isNull : J → Bool
+  | .null => true
+  | _ => false
+
+def isObjLit : J → Bool
+  | .obj _ => true
+  | _ => false
+
+/-- an element is canonical when, if it is read as a typed value, that value is canonical -/
+def canonElemB (I : Impl) (C : String → J → Bool) (plan : List Step) (e : J) : Bool :=
+  match landing I plan e with
+  | .ty k' => C k' e
+  | _ => true
+
+/-- one value standing alone under the plain spelling: not null, not a language map -/
+def canonSingleB (I : Impl) (C : String → J → Bool) (p : IProp) (e : J) : Bool :=
+  !isNull e && canonElemB I C p.plan e && !(p.natLang && isLangMap I p.plan e)
+
+/-- a value under the plain spelling: single (see above), or — non-functional only — an array of n ≠ 1 elements -/
+def canonValueB (I : Impl) (C : String → J → Bool) (p : IProp) (e : J) : Bool :=
+  if p.functional then canonSingleB I C p e
+  else match e with
+    | .arr xs => xs.length != 1 && xs.all (canonElemB I C p.plan)
+    | e => canonSingleB I C p e
+
+/-- the value of one property is in the form the encoder writes: absent; a single value under the plain spelling;
+an array of n ≠ 1 values (non-functional only); or one language map under the `Map` spelling — never both spellings -/
+def canonPropB (I : Impl) (C : String → J → Bool) (p : IProp) (j : J) : Bool :=
+  match j.get? p.name, (if p.natLang then j.get? (p.name ++ "Map") else none) with
+  | none, none => true
+  | some e, none => canonValueB I C p e
+  | none, some e => isObjLit e && isLangMap I p.plan e
+  | some _, some _ => false
+
+def canonTypeB (I : Impl) (C : String → J → Bool) (k : String) (j : J) : Bool :=
+  match I.findType k with
+  | none => false
+  | some t =>
+    (match j with
+     | .obj kvs => sortedB kvs
+     | _ => false) &&
+    (t.typeless || j.has "type") &&
+    t.serProps.all fun pn => match I.findProp pn with
+      | none => false
+      | some p => canonPropB I C p j
+
+/-- canonical typed value of nesting depth at most `n` -/
+def canonB (I : Impl) : Nat → String → J → Bool
+  | 0, _, _ => false
+  | n + 1, k, j => canonTypeB I (canonB I n) k j
+
+/-- the members of `j` under the key(s) of property `p` -/
+def present (p : IProp) (j : J) : List (String × J) :=
+  (match j.get? p.name with
+   | some v => [(p.name, v)]
+   | none => []) ++
+  (if p.natLang then
+    (match j.get? (p.name ++ "Map") with
+     | some v => [(p.name ++ "Map", v)]
+     | none => [])
+   else [])
+
 end AV.RoundTrip
